@@ -373,18 +373,21 @@ def interpolate (O : Ops α) (xs ys : List α) (removeLeading : Bool) : Res (Lis
       accumulate O num (O.mul y d) result).bind fun result =>
     .ok (if removeLeading then removeLeadingZeros O result else result)
 
+/-- one iteration `equation[k] = roots[k+1] + equation[k+1] * x` of the inlined synthetic division of
+    `interpolate_batch`; the state is `equation[k+1..]` (its head is `equation[k+1]`) -/
+def batchEqStep (O : Ops α) (roots : List α) (x : α) (eq : List α) (k : Nat) : Res (List α) :=
+  (getAt roots (k + 1)).bind fun r =>
+  match eq with
+  | e :: _ => .ok (O.add r (O.mul e x) :: eq)
+  | [] => .panic "index out of bounds"
+
 /-- the inlined synthetic division of `interpolate_batch`:
-    `equation[N-1] = roots[N]; for k in (0..N-1).rev() { equation[k] = roots[k+1] + equation[k+1] * x }`;
-    the state is `equation[k+1..]` (its head is `equation[k+1]`) -/
+    `equation[N-1] = roots[N]; for k in (0..N-1).rev() { equation[k] = roots[k+1] + equation[k+1] * x }` -/
 def batchEquation (O : Ops α) (N : Nat) (roots : List α) (x : α) : Res (List α) :=
   if N = 0 then .panic "attempt to subtract with overflow"
   else
     (getAt roots N).bind fun top =>
-    loopM (List.range (N - 1)).reverse [top] fun eq k =>
-      (getAt roots (k + 1)).bind fun r =>
-      match eq with
-      | e :: _ => .ok (O.add r (O.mul e x) :: eq)
-      | [] => .panic "index out of bounds"
+    loopM (List.range (N - 1)).reverse [top] (batchEqStep O roots x)
 
 /-- state of the first loop of `interpolate_batch`: `roots` (reused between batches), the
     equations and the values to invert, both in order of `i * N + j` -/
